@@ -156,3 +156,103 @@ pub fn structured_inputs(tier: &str, r: &mut Rng, inputs: &mut Vec<Input>) {
         for (bytes, t) in ms { inputs.push(Input { kind: K_VARIANT, bytes, aux: a.aux.clone(), tag: format!("{} {t}", a.label) }) }
     }
 }
+
+// ---------------------------------------------------------------------------------------------
+// Dictionary-encoded data pages (follow-up 2): one bit-packed dictionary index of a full group rewritten to every
+// out-of-range value dict_len ..= 2^bit_width - 1.  impl op  c08.dict_read [[file bytes],[written values],[type]]
+// -> [[code],[rows],[panic class]] with code 0 Ok-and-equal-to-the-written-values, 1 Err, 2 Panic, 3 Timeout,
+// 4 Abort, 5 Ok-but-a-value-differs (an out-of-range index has no valid value: garbage).  Model: c08.outcome.post.
+// ---------------------------------------------------------------------------------------------
+pub const GARBAGE: i64 = 5;
+fn dict_value_id(ty: i64, col: &dyn Array, i: usize) -> i64 {
+    match ty {
+        0 => col.as_any().downcast_ref::<Int32Array>().map(|a| (a.value(i) as i64 - 1000) / 7).unwrap_or(-1),
+        1 => col.as_any().downcast_ref::<Int64Array>().map(|a| (a.value(i) - 5_000_000_000) / 11).unwrap_or(-1),
+        2 => col.as_any().downcast_ref::<BinaryArray>().and_then(|a| std::str::from_utf8(a.value(i)).ok().and_then(|s| s.strip_prefix("value-")).and_then(|s| s.parse().ok())).unwrap_or(-1),
+        _ => col.as_any().downcast_ref::<FixedSizeBinaryArray>().map(|a| { let v = a.value(i); if v.len() == 3 && v[1] == v[0].wrapping_add(1) && v[2] == v[0].wrapping_add(2) { v[0] as i64 } else { -1 } }).unwrap_or(-1),
+    }
+}
+fn dict_column(ty: i64, ids: &[i64]) -> (Field, ArrayRef) {
+    let (dt, a): (DataType, ArrayRef) = match ty {
+        0 => (DataType::Int32, Arc::new(Int32Array::from(ids.iter().map(|j| 1000 + 7 * *j as i32).collect::<Vec<_>>()))),
+        1 => (DataType::Int64, Arc::new(Int64Array::from(ids.iter().map(|j| 5_000_000_000 + 11 * *j).collect::<Vec<_>>()))),
+        2 => (DataType::Binary, Arc::new(BinaryArray::from_iter_values(ids.iter().map(|j| format!("value-{j}").into_bytes())))),
+        _ => (DataType::FixedSizeBinary(3), Arc::new(FixedSizeBinaryArray::try_from_iter(ids.iter().map(|j| vec![*j as u8, *j as u8 + 1, *j as u8 + 2])).unwrap())),
+    };
+    (Field::new("d", dt, false), a)
+}
+/// the real reader on a (patched) file, compared with the values that were written
+pub fn dict_read(bytes: &[u8], expected: &[i64], ty: i64) -> Result<i64, ()> {
+    use parquet::arrow::arrow_reader::ParquetRecordBatchReaderBuilder;
+    let rd = ParquetRecordBatchReaderBuilder::try_new(bytes::Bytes::from(bytes.to_vec())).map_err(|_| ())?.with_batch_size(1024).build().map_err(|_| ())?;
+    let mut got: Vec<i64> = Vec::new();
+    for b in rd { let b = b.map_err(|_| ())?; let c = b.column(0); for i in 0..c.len() { got.push(if c.is_null(i) { -2 } else { dict_value_id(ty, c.as_ref(), i) }) } }
+    Ok(if got == expected { OK } else { GARBAGE })
+}
+
+/// a file with one required dictionary-encoded column of `n` values over `d` distinct values in a non-repeating order
+pub fn dict_file(r: &mut Rng, ty: i64, d: usize, n: usize, v2: bool) -> Option<(Vec<u8>, Vec<i64>)> {
+    use parquet::file::properties::{EnabledStatistics, WriterProperties, WriterVersion};
+    let mut ids: Vec<i64> = Vec::with_capacity(n);
+    for i in 0..n { let mut j = if i < d { i } else { r.below(d) } as i64; if i > 0 && ids[i - 1] == j { j = (j + 1) % d as i64 } ids.push(j) }
+    let (f, a) = dict_column(ty, &ids);
+    let b = RecordBatch::try_new(Arc::new(Schema::new(vec![f])), vec![a]).ok()?;
+    quietly(move || {
+        let p = WriterProperties::builder().set_dictionary_enabled(true).set_statistics_enabled(EnabledStatistics::None)
+            .set_writer_version(if v2 { WriterVersion::PARQUET_2_0 } else { WriterVersion::PARQUET_1_0 }).build();
+        let mut w = parquet::arrow::ArrowWriter::try_new(Vec::new(), b.schema(), Some(p)).ok()?;
+        w.write(&b).ok()?;
+        Some((w.into_inner().ok()?, ids))
+    })
+}
+/// (position of the first packed byte, bit width, number of packed values) of the first data page's index stream
+pub fn dict_index_stream(b: &[u8]) -> Option<(usize, usize, usize)> {
+    for (_, slots) in pq_page_headers(b) {
+        let ints: Vec<&TSlot> = slots.iter().filter(|s| s.what == 0).collect();
+        let ptype = ints.first().map(|s| s.val >> 1)?;                   // zig-zag of a small non-negative enum
+        if ptype != 0 && ptype != 3 { continue }                          // DATA_PAGE / DATA_PAGE_V2 (required column: no level bytes)
+        let payload = slots.last()?.pos + 1;
+        let bw = *b.get(payload)? as usize;
+        let (h, hl) = read_uleb(b, payload + 1)?;
+        if h & 1 != 1 || bw == 0 || bw > 8 { return None }
+        let groups = (h >> 1) as usize;
+        if payload + 1 + hl + groups * bw > b.len() { return None }
+        return Some((payload + 1 + hl, bw, groups * 8));
+    }
+    None
+}
+pub fn set_packed(b: &mut [u8], start: usize, bw: usize, pos: usize, v: usize) {
+    for k in 0..bw { let bit = pos * bw + k; let (by, bi) = (start + bit / 8, bit % 8); if (v >> k) & 1 == 1 { b[by] |= 1 << bi } else { b[by] &= !(1 << bi) } }
+}
+pub fn get_packed(b: &[u8], start: usize, bw: usize, pos: usize) -> usize {
+    (0..bw).fold(0, |a, k| { let bit = pos * bw + k; a | ((((b[start + bit / 8] >> (bit % 8)) & 1) as usize) << k) })
+}
+
+pub fn dict_page_jobs(tier: &str, r: &mut Rng) -> Vec<(Args, String)> {
+    let mut out = Vec::new();
+    let combos: Vec<(i64, usize)> = if tier == "thorough" { (0..4).flat_map(|t| [3usize, 5, 6, 7].map(|d| (t as i64, d))).collect() }
+                                    else { vec![(0, 5), (1, 3), (2, 6), (3, 7), (2, 5), (1, 7), (0, 6)] };
+    for (k, (ty, d)) in combos.into_iter().enumerate() {
+        let n = 48 + 8 * r.below(3);
+        let Some((file, ids)) = dict_file(r, ty, d, n, k % 4 == 3) else { continue };
+        out.push((vec![gbytes(&file), gs(&ids), g(ty)], format!("dict t{ty} d{d} valid")));
+        let Some((start, bw, nvals)) = dict_index_stream(&file) else { eprintln!("c08: dictionary page layout not recognised (type {ty}, {d} values)"); continue };
+        if (1usize << bw) <= d || nvals < 32 { continue }
+        // KNOWN-FINDING candidate: for a FIXED_LEN_BYTE_ARRAY column the pinned reader PANICS ("range end index .. out of
+        // range", parquet/src/arrow/array_reader/fixed_len_byte_array.rs) on any dictionary index >= dict_len instead of
+        // returning Err (witness: /work/followup/C08-new-panic-flba-dict-index.replay); the patched inputs of that type are
+        // excluded until the finding is recorded, the valid file is still read and compared
+        if ty == 3 && std::env::var("C08_INCLUDE_KNOWN").is_err() { continue }
+        // sanity: the stream really holds the written indices (up to the dictionary's own order): first value is entry 0
+        if get_packed(&file, start, bw, 0) != 0 { continue }
+        for pos in 0..32 {
+            for v in d..(1 << bw) {
+                // the boundary value dict_len at every position of the first two groups of 16; the larger ones sampled
+                if v > d && pos % 8 != (v % 8) { continue }
+                let mut f = file.clone(); set_packed(&mut f, start, bw, pos, v);
+                out.push((vec![gbytes(&f), gs(&ids), g(ty)], format!("dict t{ty} d{d} idx{}{}", if v == d { "eq" } else { "gt" }, if pos < 16 { "a" } else { "b" })));
+            }
+        }
+    }
+    out
+}
